@@ -339,7 +339,8 @@ func filterEscapejs(in *Value, param *Value) (*Value, *Error) {
 	idx := 0
 	for idx < len(sin) {
 		c, size := utf8.DecodeRuneInString(sin[idx:])
-		if c == utf8.RuneError {
+		if c == utf8.RuneError && size <= 1 {
+			// Invalid UTF-8 (a genuine U+FFFD is three bytes long and is escaped like any other character)
 			idx += size
 			continue
 		}
